@@ -5,18 +5,29 @@ import sys
 from . import common
 
 sys.path.insert(0, common.ROOT)
-from gen import families, ufo  # noqa: E402
+from gen import families, glyphs, ufo  # noqa: E402
+
+# properties whose oracles understand Glyphs-rendered sources (second front end): every third source is rendered as
+# a Glyphs 3 file when the model can be expressed there (identity axis maps, diagonal transforms, shared kern groups)
+GLYPHS_FORMAT_PROPS = {"C03", "C04", "C06", "C09", "C10", "C05", "C17", "C01", "C02", "C14", "C12"}
 
 
 def sources_for(prop, chk, n, fams=None, post=None):
-    """Render n generated sources (designspace paths; manifest.json sits next to each)."""
+    """Render n generated sources (designspace / UFO / Glyphs paths; manifest.json sits next to each)."""
     fams = fams or families.BY_PROPERTY.get(prop) or list(families.FAMILIES)
     out = []
     for i in range(n):
         fam = fams[i % len(fams)]
+        d = os.path.join(chk.scratch, "gen", f"{fam}-{chk.seed}-{i}")
+        if prop in GLYPHS_FORMAT_PROPS and i % 3 == 2:
+            model = families.make(fam, chk.seed, i, overrides={"mapped": 0.0, "vertical": False, "explicit_metrics": False})
+            if post:
+                model = post(model, i) or model
+            if glyphs.expressible(model):
+                out.append(glyphs.render(model, d))
+                continue
         model = families.make(fam, chk.seed, i)
         if post:
             model = post(model, i) or model
-        d = os.path.join(chk.scratch, "gen", f"{fam}-{chk.seed}-{i}")
         out.append(ufo.render(model, d))
     return out
